@@ -73,6 +73,22 @@ func main() {
 	aliasing(repo, vars)
 }
 
+// the custom modules (x/evm, x/inflation, x/oracle, x/epochs, x/sudo, x/tokenfactory, x/devgas) whose keepers are singletons shared by block execution and requests
+var moduleRoots = []string{"x/evm", "x/inflation", "x/oracle", "x/epochs", "x/sudo", "x/tokenfactory", "x/devgas"}
+
+// directories that are not on the node's execution paths: compiled-contract artefacts, CLI, test helpers, simulation
+func artefactDir(dir string) bool {
+	if strings.HasPrefix(dir, "x/evm/embeds") {
+		return true
+	}
+	for _, suf := range []string{"/evmtest", "/cli", "/client/cli", "/simulation", "/testutil", "/fixture", "/integration", "/mocks"} {
+		if strings.HasSuffix(dir, suf) || strings.Contains(dir, suf+"/") {
+			return true
+		}
+	}
+	return false
+}
+
 // typeKind classifies a type expression syntactically:
 //
 //	basic   string / bool / numeric / arrays of those — a value, immutable unless the holder is assigned
@@ -135,7 +151,8 @@ func sharedState(repo string) map[string]bool {
 	structs := map[string]sdecl{}
 	hasRun := map[string]bool{}
 	var allFiles []File
-	dirs := []string{"x/evm/keeper", "x/evm/precompile"}
+	dirs := []string{"x/evm/keeper", "x/evm/precompile", "x/inflation/keeper", "x/oracle/keeper", "x/epochs/keeper", "x/sudo/keeper",
+		"x/tokenfactory/keeper", "x/devgas/v1/keeper"}
 	for _, dir := range dirs {
 		for _, fl := range ParseDir(filepath.Join(repo, dir)) {
 			allFiles = append(allFiles, fl)
@@ -151,7 +168,7 @@ func sharedState(repo string) map[string]bool {
 							continue
 						}
 						if stt, ok := ts.Type.(*ast.StructType); ok {
-							structs[ts.Name.Name] = sdecl{dir, stt}
+							structs[dir+"|"+ts.Name.Name] = sdecl{dir, stt}
 						}
 					}
 				case *ast.FuncDecl:
@@ -168,35 +185,46 @@ func sharedState(repo string) map[string]bool {
 			}
 		}
 	}
-	local := map[string]bool{}
-	for n := range structs {
-		local[n] = true
+	localOf := func(dir string) map[string]bool {
+		m := map[string]bool{}
+		for k := range structs {
+			if strings.HasPrefix(k, dir+"|") {
+				m[strings.TrimPrefix(k, dir+"|")] = true
+			}
+		}
+		return m
 	}
-	// closure from the roots
+	// closure from the roots (per package: every module has its own Keeper)
 	reach := map[string]bool{}
-	var visit func(n string)
-	visit = func(n string) {
-		if reach[n] {
+	var visit func(key string)
+	visit = func(key string) {
+		if reach[key] {
 			return
 		}
-		sd, ok := structs[n]
+		sd, ok := structs[key]
 		if !ok {
 			return
 		}
-		reach[n] = true
+		reach[key] = true
+		loc := localOf(sd.dir)
 		for _, f := range sd.st.Fields.List {
 			ast.Inspect(f.Type, func(m ast.Node) bool {
-				if id, ok := m.(*ast.Ident); ok && local[id.Name] {
-					visit(id.Name)
+				if _, ok := m.(*ast.SelectorExpr); ok {
+					return false // pkg.T names a type of another package
+				}
+				if id, ok := m.(*ast.Ident); ok && loc[id.Name] {
+					visit(sd.dir + "|" + id.Name)
 				}
 				return true
 			})
 		}
 	}
-	visit("Keeper")
-	visit("NibiruBankKeeper")
+	for _, dir := range dirs {
+		visit(dir + "|Keeper")
+	}
+	visit("x/evm/keeper|NibiruBankKeeper")
 	for n := range hasRun {
-		visit(n)
+		visit("x/evm/precompile|" + n)
 	}
 	// field names assigned outside constructors, anywhere under x/evm
 	ctor := func(name string) bool {
@@ -208,20 +236,22 @@ func sharedState(repo string) map[string]bool {
 		dir string
 		fl  File
 	}
-	filepath.WalkDir(filepath.Join(repo, "x/evm"), func(p string, d os.DirEntry, err error) error {
-		if err != nil || !d.IsDir() {
-			return nil
-		}
-		for _, fl := range ParseDir(p) {
-			if !strings.Contains(filepath.Base(fl.Path), ".pb.") {
-				evmFiles = append(evmFiles, struct {
-					dir string
-					fl  File
-				}{strings.TrimPrefix(p, repo+"/"), fl})
+	for _, root := range moduleRoots {
+		filepath.WalkDir(filepath.Join(repo, root), func(p string, d os.DirEntry, err error) error {
+			if err != nil || !d.IsDir() {
+				return nil
 			}
-		}
-		return nil
-	})
+			for _, fl := range ParseDir(p) {
+				if !strings.Contains(filepath.Base(fl.Path), ".pb.") {
+					evmFiles = append(evmFiles, struct {
+						dir string
+						fl  File
+					}{strings.TrimPrefix(p, repo+"/"), fl})
+				}
+			}
+			return nil
+		})
+	}
 	lhsRoot := func(e ast.Expr) ast.Expr { // x[i] = …, *x = … count as assignments to x
 		for {
 			switch x := e.(type) {
@@ -273,8 +303,10 @@ func sharedState(repo string) map[string]bool {
 
 	type field struct{ dir, st, name, typ, kind string }
 	var fields []field
-	for n := range reach {
-		sd := structs[n]
+	for key := range reach {
+		sd := structs[key]
+		n := strings.TrimPrefix(key, sd.dir+"|")
+		local := localOf(sd.dir)
 		for _, f := range sd.st.Fields.List {
 			typ := Nospace(f.Type)
 			k := typeKind(f.Type, local)
@@ -309,6 +341,9 @@ func sharedState(repo string) map[string]bool {
 	}
 	var vars []pvar
 	initKind := func(v ast.Expr) string {
+		if t := Nospace(v); strings.Contains(t, "sync.") || strings.Contains(t, "atomic.") {
+			return "sync"
+		}
 		switch x := v.(type) {
 		case *ast.BasicLit:
 			return "basic"
@@ -317,8 +352,8 @@ func sharedState(repo string) map[string]bool {
 		case *ast.CallExpr:
 			f := Nospace(x.Fun)
 			switch {
-			case f == "errors.New" || f == "fmt.Errorf" || strings.HasSuffix(f, ".Register") && strings.Contains(f, "err") ||
-				f == "errorsmod.Register" || f == "sdkerrors.Register" || f == "errorsmod.Wrap" || f == "errorsmod.Wrapf":
+			case f == "errors.New" || f == "fmt.Errorf" || strings.HasSuffix(f, ".Register") || strings.HasSuffix(f, ".Wrap") || strings.HasSuffix(f, ".Wrapf") ||
+				strings.Contains(strings.ToLower(f), "registererror"):
 				return "err"
 			case strings.HasSuffix(f, "HexToAddress") || strings.HasSuffix(f, "BytesToAddress") || strings.HasSuffix(f, "HexToHash"):
 				return "value"
@@ -327,6 +362,9 @@ func sharedState(repo string) map[string]bool {
 		return "ref"
 	}
 	for _, ef := range evmFiles {
+		if artefactDir(ef.dir) {
+			continue // compiled-contract artefacts, CLI, simulation and test helpers are not on the node's execution paths
+		}
 		pkg := ef.fl.F.Name.Name
 		for _, decl := range ef.fl.F.Decls {
 			gd, ok := decl.(*ast.GenDecl)
@@ -343,6 +381,8 @@ func sharedState(repo string) map[string]bool {
 					if vs.Type != nil {
 						typ = Nospace(vs.Type)
 						switch typeKind(vs.Type, nil) {
+						case "sync":
+							kind = "sync"
 						case "basic":
 							kind = "basic"
 						case "func":
@@ -356,6 +396,10 @@ func sharedState(repo string) map[string]bool {
 					}
 					if i < len(vs.Values) && vs.Type == nil {
 						kind = initKind(vs.Values[i])
+						// sentinel-error naming convention: ErrXxx / errXxx bound to the result of a call
+						if _, isCall := vs.Values[i].(*ast.CallExpr); isCall && kind == "ref" && (strings.HasPrefix(n.Name, "Err") || strings.HasPrefix(n.Name, "err")) {
+							kind = "err"
+						}
 					}
 					vars = append(vars, pvar{ef.dir, n.Name, typ, kind, assignedVar[ef.dir+"|"+n.Name] || assignedVar["pkg:"+pkg+"|"+n.Name]})
 				}
@@ -375,7 +419,7 @@ func sharedState(repo string) map[string]bool {
 	fmt.Println("].")
 	names := map[string]bool{}
 	for _, v := range vars {
-		if !strings.HasPrefix(v.dir, "x/evm/embeds") && v.dir != "x/evm/evmtest" && v.dir != "x/evm/cli" && (v.kind == "ref" || v.assigned) {
+		if !artefactDir(v.dir) && (v.kind == "ref" || v.kind == "sync" || v.assigned) {
 			names[v.dir+"|"+v.name] = true
 		}
 	}
@@ -387,13 +431,22 @@ var bigMutators = map[string]bool{"Add": true, "Sub": true, "Mul": true, "Div": 
 	"Exp": true, "Lsh": true, "Rsh": true, "And": true, "Or": true, "Xor": true, "Not": true, "Abs": true, "Sqrt": true,
 	"Set": true, "SetUint64": true, "SetInt64": true, "SetBytes": true, "SetString": true, "SetBit": true}
 
-// freshValue: the expression certainly denotes a newly allocated number (new(big.Int), big.NewInt(..), or a method chain on one)
+// freshValue: the expression certainly denotes a newly allocated number (new(big.Int), big.NewInt(..), an sdk.Dec / sdk.Int
+// constructor, or a method chain on one)
 func freshValue(e ast.Expr) bool {
 	switch x := e.(type) {
 	case *ast.CallExpr:
 		f := Nospace(x.Fun)
 		if f == "new" || f == "big.NewInt" || f == "uint256.NewInt" {
 			return true
+		}
+		if i := strings.LastIndex(f, "."); i > 0 {
+			n := f[i+1:]
+			if (strings.HasPrefix(n, "NewDec") || strings.HasPrefix(n, "LegacyNewDec") || strings.HasPrefix(n, "NewInt") || strings.HasPrefix(n, "ZeroDec") ||
+				strings.HasPrefix(n, "OneDec") || strings.HasPrefix(n, "LegacyZeroDec") || strings.HasPrefix(n, "LegacyOneDec") || strings.HasPrefix(n, "ZeroInt")) &&
+				(strings.HasPrefix(f, "sdk.") || strings.HasPrefix(f, "math.") || strings.HasPrefix(f, "sdkmath.")) {
+				return true
+			}
 		}
 		if sel, ok := x.Fun.(*ast.SelectorExpr); ok {
 			return freshValue(sel.X)
@@ -413,13 +466,13 @@ func freshValue(e ast.Expr) bool {
 func aliasing(repo string, pkgVars map[string]bool) {
 	type site struct{ dir, fn, expr string }
 	var inplace, aliases []site
-	for _, top := range []string{"x/evm", "app/evmante", "eth"} {
+	for _, top := range append(append([]string{}, moduleRoots...), "app/evmante", "eth") {
 		filepath.WalkDir(filepath.Join(repo, top), func(p string, d os.DirEntry, err error) error {
 			if err != nil || !d.IsDir() {
 				return nil
 			}
 			dir := strings.TrimPrefix(p, repo+"/")
-			if strings.HasPrefix(dir, "x/evm/embeds") || dir == "x/evm/evmtest" || dir == "x/evm/cli" {
+			if artefactDir(dir) {
 				return nil
 			}
 			for _, fl := range ParseDir(p) {
@@ -459,8 +512,25 @@ func aliasing(repo string, pkgVars map[string]bool) {
 						switch x := n.(type) {
 						case *ast.CallExpr:
 							sel, ok := x.Fun.(*ast.SelectorExpr)
-							if !ok || !bigMutators[sel.Sel.Name] || len(x.Args) == 0 {
+							if !ok {
 								return true
+							}
+							// sdk.Dec / sdk.Int in-place API: every method named …Mut overwrites its receiver
+							if strings.HasSuffix(sel.Sel.Name, "Mut") && len(sel.Sel.Name) > 3 {
+								if freshValue(sel.X) {
+									return true
+								}
+								if id, ok := sel.X.(*ast.Ident); ok && freshLocal[id.Name] && !notFresh[id.Name] {
+									return true
+								}
+								inplace = append(inplace, site{dir, fd.Name.Name, Nospace(x.Fun)})
+								return true
+							}
+							if !bigMutators[sel.Sel.Name] || len(x.Args) == 0 {
+								return true
+							}
+							if unary := map[string]bool{"Neg": true, "Not": true, "Abs": true, "Sqrt": true}; len(x.Args) < 2 && !unary[sel.Sel.Name] && !strings.HasPrefix(sel.Sel.Name, "Set") {
+								return true // sdk.Dec / sdk.Int style x.Mul(y): allocates
 							}
 							recv := Nospace(sel.X)
 							isSet := strings.HasPrefix(sel.Sel.Name, "Set")
@@ -490,8 +560,9 @@ func aliasing(repo string, pkgVars map[string]bool) {
 									}
 								case *ast.SelectorExpr:
 									if id, ok := e.X.(*ast.Ident); ok {
-										for _, vd := range []string{"x/evm", "x/evm/precompile", "x/evm/statedb", "x/evm/keeper"} {
-											if filepath.Base(vd) == id.Name && pkgVars[vd+"|"+e.Sel.Name] {
+										for key := range pkgVars {
+											vd := key[:strings.Index(key, "|")]
+											if (filepath.Base(vd) == id.Name || filepath.Base(vd) == "types" && strings.HasSuffix(id.Name, "types")) && key == vd+"|"+e.Sel.Name {
 												name = id.Name + "." + e.Sel.Name
 											}
 										}
